@@ -17,12 +17,12 @@ Ready == up /\ Quiet
 
 Start ==
     /\ Ready /\ nops < MaxOps
-    /\ \/ \E sh \in MCShapes : IngestLock("c1", sh)
+    /\ \/ IngestLock("c1")
        \/ ForceFlushCall
     /\ nops' = nops + 1
 Continue ==
     /\ ~Ready
-    /\ \/ IngestCatalogue("c1") \/ WalAssign("c1") \/ WalStore("c1") \/ WalTmpCreate("c1") \/ WalTmpWrite("c1") \/ WalRename("c1")
+    /\ \/ (\E sh \in MCShapes : IngestCatalogue("c1", sh)) \/ WalAssign("c1") \/ WalStore("c1") \/ WalTmpCreate("c1") \/ WalTmpWrite("c1") \/ WalRename("c1")
        \/ (\E t \in AllT : ApplyTable("c1", t)) \/ IngestAck("c1")
        \/ FlushNext
        \/ RecNext
@@ -40,7 +40,7 @@ MinT(S) == CHOOSE t \in S : \A u \in S : Idx(t) <= Idx(u)
 \* partition files are written and log segments deleted stays free (those orders are observable by a crash)
 Canon ==
     /\ (fl'.todoFreeze # fl.todoFreeze /\ fl.todoFreeze # {}) => (fl.todoFreeze \ fl'.todoFreeze) = {MinT(fl.todoFreeze)}
-    /\ (fl.pc = "batching" /\ fl'.pc = "batching" /\ fl' # fl) =>
+    /\ (fl.pc = "batching" /\ fl'.pc = "batching" /\ fl' # fl /\ fl.todo # {}) =>
            \/ (fl.todo \ fl'.todo) = {MinT(fl.todo)}
            \/ fl'.batched = fl.batched \cup {MinT(fl.todo)}
     /\ \A c \in Clients : (ing'[c].toApply # ing[c].toApply /\ ing[c].toApply # {}) =>
